@@ -717,6 +717,9 @@ fn main() {
         })
         .collect();
     let mut st = std::collections::BTreeMap::<String, u64>::new();
+    for k in ["opened_non_tree", "opened_zero_child", "opened_invalid_node_syllable"] {
+        st.insert(k.into(), 0);
+    }
     for h in handles {
         for l in h.join().unwrap() {
             if let Some(rest) = l.strip_prefix("#open ") {
